@@ -12,9 +12,10 @@ from vlib.tlaparse import to_json
 HARNESS = ["zz_verif_c20_test.go", "zz_verif_c20b_test.go", "zz_verif_c20c_test.go"]
 WEAK = ["NoTrustedHashCompare", "NoBlockIDCompare", "NoLastCommitBinding", "TxNotBound", "NoTxProofCheck",
         "ResultsPreimage", "ResultsHeightUnbound", "NoResultsHashCompare", "NoQueryProofCheck", "AbsenceRawKey",
-        "NoParamsHashCompare", "ValsNotHashed"]
+        "NoParamsHashCompare", "ValsNotHashed", "SearchProofFromCachedBlock"]
 # the invariant each weakened spec must violate (any of)
-WEAK_EXPECT = {"ResultsPreimage": ["RelayComplete"], "AbsenceRawKey": ["RelayComplete"]}
+WEAK_EXPECT = {"ResultsPreimage": ["RelayComplete"], "AbsenceRawKey": ["RelayComplete"],
+               "SearchProofFromCachedBlock": ["ServedProofsVerify"]}
 
 
 def _descs(r):
@@ -101,6 +102,17 @@ def run(ctx):
             ctx.save_log("weak_" + w, rw.out)
             raise Undecided("vacuity: weakened spec Weak_%s is not refuted (%s)" % (w, names or rw.errors[:1]))
         nonvac["Weak_%s refuted by TLC" % w] = names[0]
+        if w == "SearchProofFromCachedBlock":
+            # the counterexample (a descending page spanning several heights) is replayed on the real rpc/core
+            try:
+                attack = to_json(rw.violations[0]["trace"][0][1]["cs"])
+            except Exception:
+                attack = None
+            if attack is None:
+                raise Undecided("could not read the counterexample of Weak_SearchProofFromCachedBlock")
+            if attack not in cases:
+                cases.append(attack)
+            nonvac["attack case of Weak_SearchProofFromCachedBlock (replayed on real rpc/core.TxSearch)"] = attack["a"]
     nonvac["RelaySoundStrict (TxResult / validator address) refuted by TLC"] = any(
         v["name"] == "RelaySoundStrict" for v in oth_res["strict"].violations)
     nonvac["ExtraComplete (BlockchainInfo with a fresh light client) refuted by TLC"] = any(
@@ -109,7 +121,8 @@ def run(ctx):
     # ---- 2. replay every case on the real client + random chains / double lies -----------------
     rows = _run_harness(ctx, descs, cases, nrandom)
     calls = [r for r in rows if r["ev"] == "Call"]
-    ncase_rows = sum(1 for r in calls if r.get("src") == "tlc")
+    searches = [r for r in rows if r["ev"] == "Search"]
+    ncase_rows = sum(1 for r in calls + searches if r.get("src") == "tlc")
     if ncase_rows != len(cases):
         raise Undecided("harness executed %d of %d cases" % (ncase_rows, len(cases)))
 
@@ -137,7 +150,7 @@ def run(ctx):
         "evaluations": len(rows),
         "distinct_nontrivial": len(distinct),
         "rule": "every case enumerated by TLC from TMLightRPC!Cases (2 chains: with txs/events/validator+param change, and bare; "
-                "9 kinds; every honest request with a fresh and a warm light client; every field x replacement x "
+                "9 kinds + TxSearch(prove) served by the real rpc/core for height ranges x asc/desc x per_page x every page; every honest request with a fresh and a warm light client; every field x replacement x "
                 "raw/coherent lie at heights %s) executed on a real light/rpc.Client over a real light.Client and the real "
                 "rpc/core handlers; plus %d random cases on random chains (single, double, coherent lies); a case is distinct "
                 "by (kind, args, projected sent response, outcome)" % (lie_heights, nrandom),
@@ -153,7 +166,10 @@ def run(ctx):
         "lies_effective (sent differs from the honest answer)": sum(1 for r in calls if r.get("changed")),
         "lies_relayed": sum(1 for r in calls if r["relayed"] and r.get("changed")),
         "client_panics": sum(1 for r in calls if r.get("stage") == "panic"),
-        "served_proofs_checked": sum(1 for r in rows if r["ev"] == "Served"),
+        "served_proofs_checked": sum(1 for r in rows if r["ev"] == "Served") + sum(len(r["txs"]) for r in searches),
+        "tx_searches_with_proofs": len(searches),
+        "tx_searches_desc_multi_height_pages": sum(1 for r in searches if r["a"]["ord"] == "desc"
+                                                   and len(set(t["h"] for t in r["txs"])) > 1),
         "relayed_lie_fields (uncommitted fields S19 / genuine-elsewhere / known findings)": relayed_lies,
         "outside_statement_observations (ConsensusParams, BlockchainInfo)": extra_obs,
         "conformance_drift": [{"what": d["what"], "step": core.abridge(d["row"])} for d in drift[:5]],
@@ -197,6 +213,8 @@ def replay(ctx, path):
     cases = []
     if step.get("ev") == "Call":
         cases = [{"chain": desc["id"], "kind": step["kind"], "a": step["a"], "f": step["f"]}]
+    elif step.get("ev") == "Search":
+        cases = [{"chain": desc["id"], "kind": "TxSearch", "a": step["a"], "f": {"edits": [], "coh": False}}]
     rows = _run_harness(ctx, [desc], cases, 0)
     val = core.validate_traces(ctx, "TMLightRPCTrace", rows, max_events=700, label="replay")
     verdict = core.Verdict(ctx)
